@@ -107,6 +107,7 @@ class ElabPass:
         # Check whether an earlier attempt to elaborate `module` failed. If so, report that failure again.
         failure = self.CLASS_LEVEL_CACHE.failed.get(module, None)
         if failure is not None:
+            _verif.emit("refail", elabpass=self, module=module)
             raise failure
 
         # Check if this has already been elaborated by this pass/ class
@@ -151,6 +152,7 @@ class ElabPass:
             # elaborated further, or exported. Keep the failure, to be reported again if anyone tries.
             self.CLASS_LEVEL_CACHE.pending.discard(module)
             self.CLASS_LEVEL_CACHE.failed[module] = e
+            _verif.emit("fail", elabpass=self, module=module)
             raise
 
         # Pop the hierarchy-stack and return it
